@@ -4,7 +4,10 @@
      TPIds    ids[[8]]                 draws of GetGREASEID / GREASETransportParameter.ID
      QVers    vs[[4]]                  draws of VersionInformation.GetGREASEVersion
      TPBody   kinds, avail, body       TransportParameters.Marshal
-     Group    grp, mode, spec          start of a group of connections made from one spec
+     Group    grp, mode, spec          start of a group of connections made from one spec (dumped before its first use);
+                                       mode: parrot / fingerprint (a spec of its own per connection), reuse-id / reuse-fp /
+                                       reuse-custom (ONE spec object applied to all connections of the group), twice /
+                                       twice-custom (ApplyPreset twice on each UConn), constrand (randomness fixed by the harness)
      Hello    g, raw, seed             one wire ClientHello of group Trace[g]
      EndGroup g                        end of the group: freshness is judged here
    Every event is judged; events the specification does not accept are collected in rej. *)
